@@ -1,6 +1,8 @@
 import RoaringModel.Serde
 import RoaringModel.Props.C05
 import RoaringModel.Inv
+import RoaringModel.Lemmas.RoundTrip
+import RoaringModel.Lemmas.TreemapCodec
 /-!
 # C19 — serde representation is the standard byte format and round-trips (property theorems)
 
@@ -144,5 +146,69 @@ example : ∀ dbg : Bool,
     deserialize true dbg (Bitmap.serialize [⟨0, .array [1, 2, 70]⟩, ⟨3, .array [0, 65535]⟩])
       = .ok ([⟨0, .array [1, 2, 70]⟩, ⟨3, .array [0, 65535]⟩], []) := by
   decide +kernel
+
+end Roaring.C19
+
+/-!
+# C19 for `RoaringTreemap` (treemap/serde.rs — the same code over the treemap codec)
+
+`Serde.serEventsOf` / `visitOf` are generic, so the statements are the same; the round trip is proved in full
+from the treemap codec round trip (`C05_t_decode`, lifted from the 32-bit `C05_decode`), for every well-formed
+treemap (`Treemap.WFd Bitmap.WF` = `Treemap.TWF`).
+-/
+namespace Roaring.C19
+open Roaring Roaring.Serde
+
+/-- `Serialize` emits exactly one data-model event: the bytes of the treemap's `serialize_into`. -/
+theorem C19_t_events (t : Treemap) : tserEvents t = [Event.bytes (Treemap.serialize t)] := rfl
+
+/-- ... and the only serializer method called is `serialize_bytes`. -/
+theorem C19_t_events_methods (t : Treemap) : (tserEvents t).map Event.method = ["serialize_bytes"] := rfl
+
+/-- Every way a `Deserializer` can deliver a byte string reaches the same checked treemap decoder. -/
+theorem C19_t_visit_kinds (dbg : Bool) (bs : List Nat) :
+    tvisit dbg (.borrowedBytes bs) = tvisit dbg (.bytes bs) ∧
+    tvisit dbg (.byteBuf bs) = tvisit dbg (.bytes bs) ∧
+    tvisit dbg (.seq bs) = tvisit dbg (.bytes bs) := by
+  have h : ∀ l : List Nat, l.foldr (fun el rest => el :: rest) [] = l := by
+    intro l; induction l with
+    | nil => rfl
+    | cons a l ih => simp [List.foldr, ih]
+  refine ⟨rfl, rfl, ?_⟩
+  simp [tvisit, visitOf, visitSeqOf, visitBytesOf, h]
+
+/-- Round trip through the visitor, for every well-formed treemap and every delivery form: delivering
+    `serialize t` as bytes, borrowed bytes, a byte buffer or a sequence of `u8` yields `t`. -/
+theorem C19_t_visit_roundtrip (dbg : Bool) (t : Treemap) (h : Treemap.WFd Bitmap.WF t)
+    (inp : Input) (hinp : Input.payload inp = Treemap.serialize t) : tvisit dbg inp = .ok t := by
+  have hd : Treemap.deserialize true dbg (Treemap.serialize t) = .ok (t, []) := by
+    have := C05.C05_t_decode true dbg t h []
+    simpa using this
+  have hb : tvisit dbg (.bytes (Treemap.serialize t)) = .ok t := by
+    simp [tvisit, visitOf, visitBytesOf, hd, Except.map]
+  cases inp with
+  | bytes bs => simp [Input.payload] at hinp; subst hinp; exact hb
+  | borrowedBytes bs => simp [Input.payload] at hinp; subst hinp; exact hb
+  | byteBuf bs => simp [Input.payload] at hinp; subst hinp; exact hb
+  | seq els =>
+    simp [Input.payload] at hinp; subst hinp
+    exact (C19_t_visit_kinds dbg _).2.2.trans hb
+
+/-- What a format round trip amounts to in the model: the single emitted event, handed back to the visitor as a
+    byte string (postcard) or as a sequence (JSON), yields the original value. -/
+theorem C19_t_rt (dbg : Bool) (t : Treemap) (h : Treemap.WFd Bitmap.WF t) :
+    (match tserEvents t with
+     | [Event.bytes bs] => tvisit dbg (.bytes bs) = .ok t ∧ tvisit dbg (.seq bs) = .ok t
+     | _ => False) := by
+  simp only [C19_t_events]
+  exact ⟨C19_t_visit_roundtrip dbg t h (.bytes _) rfl, C19_t_visit_roundtrip dbg t h (.seq _) rfl⟩
+
+/-- Non-vacuity: a two-partition value (keys 0 and `u32::MAX`) meets the hypothesis. -/
+example : Treemap.WFd Bitmap.WF [(0, [⟨0, .array [1, 2, 70]⟩]), (4294967295, [⟨3, .array [0, 65535]⟩])] := by
+  apply (C05.C05_t_wf_iff _).mpr
+  refine ⟨by simp [Treemap.KeysSorted, Treemap.keys, TL.Sorted], ?_⟩
+  intro p hp
+  simp only [List.mem_cons, List.not_mem_nil, or_false] at hp
+  rcases hp with rfl | rfl <;> refine ⟨by decide, BitmapWF.toWF ?_, by simp⟩ <;> simp [BitmapWF, StoreWF]
 
 end Roaring.C19
